@@ -24,6 +24,7 @@ Verdict(r) ==
   LET ch == Norm(r.ch)
   IN [ id |-> r.id,
        valid |-> ValidChain(ch) /\ SharesSumToFee(ch) /\ FeesConserved(ch),
+       classes |-> Classes(ch),
        targets |-> [k \in DOMAIN r.obs |->
           LET o == r.obs[k]
           IN [ b |-> o.b, t |-> o.t,
